@@ -3,6 +3,7 @@
 cd /verif
 run() { # name, file, python-replace-old, new
   d=$(mktemp -d); cp -r /repo/include $d/
+  cp evidence/C12.json $d/ev_keep.json 2>/dev/null; ls replays > $d/replays_before.txt 2>/dev/null   # a mutant run must not leave evidence / replays behind
   python3 - "$d/include/momo/$2" "$3" "$4" <<'PY'
 import sys
 p,old,new=sys.argv[1:4]
@@ -13,6 +14,7 @@ PY
   echo "=== $1"; (cd $d/include && diff -u /repo/include/momo/$2 momo/$2 | tail -n +3)
   VERIF_REPO=$d timeout 1500 ./check C12 > build/C12/mut_$1.log 2>&1; echo "exit=$?"
   grep -E "stage .*BROKEN|VIOLATION|done:" build/C12/mut_$1.log | cut -c1-260
+  cp $d/ev_keep.json evidence/C12.json 2>/dev/null; for r in $(ls replays | grep '^C12-'); do grep -qx "$r" $d/replays_before.txt || rm -f replays/$r; done
   rm -rf $d
 }
 run M1 details/HashBucketLimP4.h "return (logBucketCount + logBucketCountAddend) % logBucketCountStep;" "return (logBucketCount + logBucketCountAddend + 1) % logBucketCountStep;"
@@ -29,4 +31,5 @@ run M7 details/HashBucketLimP4.h "				if (memPoolIndex != maxCount)
 					memPoolIndex = minMemPoolIndex;" "				if (memPoolIndex == maxCount)
 					memPoolIndex = minMemPoolIndex;"
 run M8 details/HashBucketOne.h "			mHashState = HashState{2};" "			mHashState = HashState{0};"
-for x in a b; do d=$(mktemp -d); cp -r /repo/include $d/; (cd $d && patch -p1 -s < /tmp/seed-out/C12/$x/patch.diff); echo "=== seed $x"; VERIF_REPO=$d timeout 1500 ./check C12 > build/C12/seed_$x.log 2>&1; echo "exit=$?"; grep -E "stage .*BROKEN|VIOLATION|done:" build/C12/seed_$x.log | cut -c1-260; rm -rf $d; done
+for x in a b; do d=$(mktemp -d); cp -r /repo/include $d/; cp evidence/C12.json $d/ev_keep.json 2>/dev/null; ls replays > $d/replays_before.txt 2>/dev/null; (cd $d && patch -p1 -s < /tmp/seed-out/C12/$x/patch.diff); echo "=== seed $x"; VERIF_REPO=$d timeout 1500 ./check C12 > build/C12/seed_$x.log 2>&1; echo "exit=$?"; grep -E "stage .*BROKEN|VIOLATION|done:" build/C12/seed_$x.log | cut -c1-260; cp $d/ev_keep.json evidence/C12.json 2>/dev/null; for r in $(ls replays | grep '^C12-'); do grep -qx "$r" $d/replays_before.txt || rm -f replays/$r; done; rm -rf $d; done
+python3 /verif/props/C12/regen_clean.py   # leave the clean translation in the shared coq directory
